@@ -131,6 +131,9 @@ func oracleC16Single(g *gen, ctx *engineCtx, cfg extCfg) {
 		firstKnown = firstTime != 0
 	}
 	m := &gtfsrt.FeedMessage{Header: header(ts), Entity: []*gtfsrt.FeedEntity{{Id: ptr("1"), TripUpdate: tu}}}
+	if g.coin(0.12) {
+		m.Entity[0].Alert = g.alert(false) // an entity that also carries an alert is still the trip update it carries
+	}
 	if g.coin(0.2) {
 		m.Entity[0].IsDeleted = ptr(g.coin(0.7)) // a flag the parser does not interpret: the entity is processed like any other
 	}
